@@ -171,14 +171,20 @@ where
     const MIN_SIZE: usize = Self::OFFSET_SIZE;
 
     fn size(&self) -> usize {
-        let mut iter = self.bytes_iter();
-        let last_payload = match (&mut iter).map(Result::unwrap).last() {
-            Some(payload) => payload,
-            None => return Self::OFFSET_SIZE,
-        };
-        match iter.data {
-            Some(_) => iter.pos + Self::OFFSET_SIZE,
-            None => iter.pos + ceil_mul(T::from_bytes(last_payload).unwrap().size(), Self::ALIGN),
+        let mut data = &self.data;
+        let mut pos = 0;
+        loop {
+            let offset = L::from_bytes(data).unwrap().to_usize().unwrap();
+            if offset == 0 {
+                // Terminating slot.
+                return pos + Self::OFFSET_SIZE;
+            } else if offset == L::max_value().to_usize().unwrap() {
+                // Last item: its slot plus its own (padded) size.
+                let payload = &data[Self::OFFSET_SIZE..];
+                return pos + Self::OFFSET_SIZE + ceil_mul(T::from_bytes(payload).unwrap().size(), Self::ALIGN);
+            }
+            pos += offset;
+            data = &data[offset..];
         }
     }
 }
